@@ -264,6 +264,8 @@ struct FnDir {
     /// function body at the time the contract was written: a pure renaming of locals in the changed
     /// code is followed by renaming them in the spliced contract text
     binders: Option<Vec<String>>,
+    /// extracted on the driver's request (helper introduced by a change), no contract
+    auto: bool,
     /// `//@ exits-ok [clause] <condition>`: every exit of the function that returns a value (each
     /// `return e` and the tail expression) is wrapped so that `e.is_ok() ==> condition` is an
     /// obligation at that exit; the condition may mention locals and ghost variables (needed where
@@ -1373,6 +1375,15 @@ fn main() {
     let (mut pieces, bound_map) = parse_unit(unit);
     // constants the changed code introduced (the driver saw `cannot find value NAME` in extracted code):
     // copied verbatim like any `//@ item`, placed before the closing brace of the verus! block
+    // helper functions the changed code introduced (the driver saw `cannot find function NAME`): extracted
+    // like any `//@ fn`, without a contract (callers learn nothing about them; the driver treats failures
+    // in their callers as weak)
+    if let Ok(extra) = std::env::var("XTRACT_EXTRA_FNS") {
+        let at = pieces.iter().rposition(|p| matches!(p, Piece::Prelude(_, _, l) if l.trim_start().starts_with("} // verus!"))).unwrap_or(pieces.len());
+        for (k, a) in extra.split(',').filter(|a| !a.is_empty()).enumerate() {
+            pieces.insert(at + k, Piece::Func(FnDir { anchor: a.to_string(), vrs_line: 0, auto: true, ..Default::default() }));
+        }
+    }
     if let Ok(extra) = std::env::var("XTRACT_EXTRA_ITEMS") {
         let at = pieces.iter().rposition(|p| matches!(p, Piece::Prelude(_, _, l) if l.trim_start().starts_with("} // verus!"))).unwrap_or(pieces.len());
         for (k, a) in extra.split(',').filter(|a| !a.is_empty()).enumerate() {
@@ -2012,6 +2023,7 @@ fn emit_fn(src: &Src, path: &str, fd: &FnDir, bm: &[(String, String)], unit: &st
         "start": fn_start, "end": fn_end, "line": src.line_of(fn_start), "end_line": src.line_of(fn_end),
         "impl_header": impl_hdr, "text": &src.text[fn_start..fn_end],
         "loops": loops.len(), "statements": stmts.len(), "lost_hints": lost_hints,
+        "auto": fd.auto,
         "local_renames": local_renames.iter().map(|(a, b)| json!({"contract": a, "code": b})).collect::<Vec<_>>()}));
     if imported {
         return;
